@@ -17,6 +17,6 @@ package display
 //@ func (*Engine).AcceptLine
 //@   props C11
 //@   assume_nopanic coordinate computation (computeCoordinates), the prompt callbacks and the terminal width query are outside this contract
-//@   requires e != nil && e.prompt != nil
+//@   requires e != nil
 //@   assigns anyof("display.Engine", "*"), anyof("ui.Prompt", "*"), anyof("core.Cursor", "pos"), anyof("core.Cursor", "mark"), anyof("core.Keys", "*")
 //@   at_call fmt.Print#2! [ends-with-newline-return] len(a0) == 1 && typeis(a0[0], "string") && asstr(a0[0]) == "\r\n"
